@@ -15,6 +15,12 @@
      ev_unit st     output unit of the model (None = plain float array)
    The correspondence instantiates them with the polynomial test model of harness/c18.py.
 
+   File layout: python dicts; table / config; assign; overlap_slices; images; Section Render
+   (the repaired loop [render], [residual]); vocabulary of the property statement (Section
+   Spec: rstate, in_box, in_window, term, overlaps, accepted, units_uniform); the UNREPAIRED
+   loop [render_orig] (only for the refutation witnesses and for the tie to /repo HEAD); the
+   polynomial test model; the correspondence ([case], [check_case], [check_case_orig]).
+
    Python dicts are association lists with dict semantics ([dset] replaces in place or
    appends).  The iteration order of the set intersection at images.py:240 is modelled by
    the order of param_names; it only influences which of several ValueErrors would be
@@ -307,6 +313,22 @@ Definition model_out (cs : case) : result :=
 Definition check_case (cs : case) : bool :=
   let '(_, _, _, _, _, _, _, expected) := cs in
   match model_out cs, expected with
+  | Err, None => true
+  | Img u img, Some (u', img') => opt_eqb Z.eqb u u' && zimg_eqb img img'
+  | _, _ => false
+  end.
+
+(* the same comparison against the model of the UNREPAIRED loop (run by the harness only when
+   the implementation under test shows the two known defects, to tie [render_orig] to /repo HEAD) *)
+Definition model_out_orig (cs : case) : result :=
+  let '(shape, mode, (pin, hb), (xn, yn, pm), (ms, bf), (cols, hs, hk, rws), un, _) := cs in
+  render_orig (poly_ev mode) poly_bbox (fun _ => un)
+    {| ny := fst shape; nx := snd shape; pinit := pin; has_bbox := hb; x_name := xn; y_name := yn;
+       pmap := pm; mshape := ms; bfactor := bf |}
+    {| colnames := cols; has_shape_col := hs; has_bkg_col := hk; rows := map mk_row rws |}.
+Definition check_case_orig (cs : case) : bool :=
+  let '(_, _, _, _, _, _, _, expected) := cs in
+  match model_out_orig cs, expected with
   | Err, None => true
   | Img u img, Some (u', img') => opt_eqb Z.eqb u u' && zimg_eqb img img'
   | _, _ => false
